@@ -6,6 +6,7 @@ import (
 	"fmt"
 	"os"
 	"strconv"
+	"strings"
 
 	"verif/mc/runner"
 	"verif/mc/specs"
@@ -56,6 +57,14 @@ func main() {
 	repo := os.Getenv("VERIF_REPO")
 	if repo == "" {
 		repo = "/repo"
+	}
+	if ad := os.Getenv("VERIF_ADHOC"); ad != "" {
+		// development aid: VERIF_ADHOC=harness:mode:shards runs one harness instead of the property's jobs
+		parts := strings.Split(ad, ":")
+		n, _ := strconv.Atoi(parts[2])
+		sp := *spec
+		sp.Jobs = func(string) []runner.Job { return []runner.Job{{Harness: parts[0], Mode: parts[1], Shards: n, GC: "on"}} }
+		spec = &sp
 	}
 	e := &runner.Env{Verif: verif, Repo: repo, Seed: seed, Tier: tier, Propose: *propose, Keep: *keep, Procs: *procs}
 	os.Exit(runner.Run(e, spec))
